@@ -30,7 +30,7 @@ def scenarios(engine, rng, n):
         kind = rng.choice(["dlq-threshold", "dlq-threshold-proc", "dlq-write", "force", "nonconverging",
                            "transient-once", "transient-once-dest", "transient-open", "transient-always",
                            "stop-running", "stop-during-backoff", "stopall", "fail-during-stop",
-                           "transient-then-stop", "dlq-disabled"])
+                           "transient-then-stop", "dlq-disabled", "transient-spaced"])
         mr = rng.choice([0, 1, 2])
         nrec = rng.randint(3, 6)
         tags = ["s1#%d" % k for k in range(1, nrec + 1)]
@@ -112,6 +112,15 @@ def scenarios(engine, rng, n):
             out.append(base(engine, kind, i, [src], None,
                             steps=[{"do": "WaitOpens", "src": "s1", "n": 2, "ms": 8000}, {"do": "Settle"}, {"do": "StopAndWait"}],
                             feats=["expect-userstop"], max_retries=2))
+        elif kind == "transient-spaced":
+            # mr+2 failures, each after a healthy 450 ms: further apart than back-off + window (150 ms), so every one
+            # of them is a first attempt and is recovered; then the flow completes
+            m = rng.choice([1, 2])
+            src.update(read_err_at=-1, read_err="verif: source read failed", fault_runs=m + 2, read_err_delay_ms=450)
+            out.append(base(engine, kind, i, [src], None,
+                            steps=[{"do": "WaitOpens", "src": "s1", "n": m + 3, "ms": 15000}, {"do": "Settle"}],
+                            feats=["expect-recover-spaced"], max_retries=m, retries_window_ms=150,
+                            min_delay_ms=10, max_delay_ms=40))
         elif kind == "dlq-disabled":
             # window 1, threshold 0: nothing tolerated, the rejecting component's own (plain) error stops the run
             t = rng.choice(tags)
@@ -128,7 +137,7 @@ def nontrivial(sc, tr):
         return None
     kind = [f for f in sc["features"] if f in ("dlq-threshold", "dlq-threshold-proc", "dlq-write", "force", "nonconverging",
             "transient-once", "transient-once-dest", "transient-open", "transient-always", "stop-running",
-            "stop-during-backoff", "stopall", "fail-during-stop", "transient-then-stop", "dlq-disabled")]
+            "stop-during-backoff", "stopall", "fail-during-stop", "transient-then-stop", "dlq-disabled", "transient-spaced")]
     return (sc["engine"], tuple(kind), sc.get("max_retries"), statuses, opens)
 
 
